@@ -69,6 +69,7 @@ func c02CacheExact(c *Ctx, rule string) {
 		for _, lk := range lookups {
 			// entry value(s): the struct itself, or a local it is spilled into
 			var dataReads, keyReads []ssa.Instruction
+			flagReads := map[ssa.Value]*types.Var{}
 			var walk func(v ssa.Value)
 			seen := map[ssa.Value]bool{}
 			walk = func(v ssa.Value) {
@@ -88,6 +89,10 @@ func c02CacheExact(c *Ctx, rule string) {
 							dataReads = append(dataReads, x)
 						case fKey:
 							keyReads = append(keyReads, x)
+						default:
+							if bt, ok := x.Type().Underlying().(*types.Basic); ok && bt.Kind() == types.Bool {
+								flagReads[x] = fieldOf(x)
+							}
 						}
 					case *ssa.Store:
 						if a, ok := x.Addr.(*ssa.Alloc); ok && x.Val == v {
@@ -103,6 +108,10 @@ func c02CacheExact(c *Ctx, rule string) {
 											dataReads = append(dataReads, u)
 										case fKey:
 											keyReads = append(keyReads, u)
+										default:
+											if bt, ok := u.Type().Underlying().(*types.Basic); ok && bt.Kind() == types.Bool {
+												flagReads[u] = fieldOf(fa)
+											}
 										}
 									}
 								}
@@ -164,6 +173,15 @@ func c02CacheExact(c *Ctx, rule string) {
 					return hasEntryKey && hasParam
 				})
 				if !g {
+					// the comparison made once, when the entry was stored: a boolean field of the entry that every
+					// writer of entries sets to bytes.Equal(search key, found key) — or to true in the entry filed
+					// under the found key itself
+					g = hasFact(dr.Block(), func(v ssa.Value, truth bool) bool {
+						f := flagReads[unwrap(v)]
+						return f != nil && truth && c02ExactFlagSound(c, f, fKey)
+					})
+				}
+				if !g {
 					ok = false
 				}
 			}
@@ -188,6 +206,88 @@ func c02CacheExact(c *Ctx, rule string) {
 	if n < 2 {
 		c.Undecided(rule, "floor", token.NoPos, fmt.Sprintf("only %d cache lookups found", n))
 	}
+}
+
+// c02ExactFlagSound: every store to the boolean field `flag` of a cache entry (in package rdb) records exactly "the
+// found key is the key this entry is filed under": its value is bytes.Equal(x, y) with one operand the value stored
+// into the entry's key field and the other the value the map index is made from; or the constant true in an entry
+// whose key field and map index are the same value.
+func c02ExactFlagSound(c *Ctx, flag, fKey *types.Var) bool {
+	n := 0
+	for _, fn := range c.OurFuncs("dnsdata/rdb") {
+		for _, st := range storesToField(fn, flag) {
+			n++
+			base := st.Addr.(*ssa.FieldAddr).X
+			// the key stored into the same entry value
+			var keyVal ssa.Value
+			for _, ks := range storesToField(fn, fKey) {
+				if ks.Addr.(*ssa.FieldAddr).X == base {
+					keyVal = ks.Val
+				}
+			}
+			if keyVal == nil {
+				return false
+			}
+			// the map indices this entry is stored under: every MapUpdate whose value is a load of base
+			var updates []*ssa.MapUpdate
+			for _, b := range fn.Blocks {
+				for _, in := range b.Instrs {
+					if mu, ok := in.(*ssa.MapUpdate); ok {
+						if u, ok := mu.Value.(*ssa.UnOp); ok && u.X == base {
+							updates = append(updates, mu)
+						}
+					}
+				}
+			}
+			if len(updates) == 0 {
+				return false
+			}
+			derivesFrom := func(idx ssa.Value, v ssa.Value) bool {
+				src := sourcesOf(v)
+				for x := range backSlice(idx, nil) {
+					if src[x] {
+						return true
+					}
+				}
+				return false
+			}
+			okStore := true
+			for _, mu := range updates {
+				for s := range sourcesOf(st.Val) {
+					if k, isK := s.(*ssa.Const); isK && k.Value != nil && k.Value.String() == "true" {
+						// filed under the found key itself, or under a key known equal to it at that point
+						if derivesFrom(mu.Key, keyVal) {
+							continue
+						}
+						eqKnown := hasFact(mu.Block(), func(v ssa.Value, truth bool) bool {
+							eq := isCallToFunc(v, "bytes", "Equal")
+							if eq == nil || !truth {
+								return false
+							}
+							a, b := eq.Call.Args[0], eq.Call.Args[1]
+							return (sameSources(a, keyVal) && derivesFrom(mu.Key, b)) || (sameSources(b, keyVal) && derivesFrom(mu.Key, a))
+						})
+						if !eqKnown {
+							okStore = false
+						}
+						continue
+					}
+					eq := isCallToFunc(s, "bytes", "Equal")
+					if eq == nil {
+						return false
+					}
+					a, b := eq.Call.Args[0], eq.Call.Args[1]
+					if !((sameSources(a, keyVal) && derivesFrom(mu.Key, b)) || (sameSources(b, keyVal) && derivesFrom(mu.Key, a))) {
+						okStore = false
+					}
+				}
+			}
+			if !okStore {
+				return false
+			}
+		}
+	}
+	return n > 0
 }
 
 // c02Cursor: findCommonLongestPrefix only in the different-name arm.
